@@ -31,6 +31,13 @@ let () =
     while true do
       let line = input_line stdin in
       match List.filter (fun s -> s <> "") (String.split_on_char ' ' (String.trim line)) with
+      | "C" :: a :: t :: r :: comps when comps <> [] ->
+          (* composition through a field of type t: caller type a -> t -> return type r *)
+          let ta = types.(int_of_string a) and tt = types.(int_of_string t) and tr = types.(int_of_string r) in
+          let cs = List.map (fun h -> z_of_u64 (Scanf.sscanf h "%Lx" (fun x -> x))) comps in
+          (match spec_conv ta tt cs with
+           | None -> print_endline "U"
+           | Some mid -> print_endline (show (spec_conv tt tr mid)))
       | a :: b :: comps when comps <> [] ->
           let ti = types.(int_of_string a) and tout = types.(int_of_string b) in
           let cs = List.map (fun h -> z_of_u64 (Scanf.sscanf h "%Lx" (fun x -> x))) comps in
